@@ -48,6 +48,9 @@ class Check(BaseCheck):
 
     def translate(self):
         extract.gen_fem()
+        extract.gen_heat()
+        extract.gen_misc()
+        extract.gen_vertex_measures()
 
     def problems(self, seed, n_tri, n_tet):
         rng = gen.rng_for(seed, "c07")
